@@ -398,7 +398,7 @@ def _bucket(dec, nshards):
     return zlib.crc32(bytes(int(d) & 0xFF for d in dec[:SHARD_DEPTH])) % nshards
 
 
-def verify_scenario(world: World, ct: Contract, sc: Scenario, budget_ms=3000, max_paths=4000, shard=0, nshards=1):
+def verify_scenario(world: World, ct: Contract, sc: Scenario, budget_ms=1500, max_paths=4000, shard=0, nshards=1):
     """Symbolically execute the real body under one scenario; returns list[PathResult].
     With nshards > 1 the path tree is split by the first SHARD_DEPTH decisions: every shard walks the (small) top of the
     tree, and below it only the sub-trees it owns, so the union over the shards is exactly the set of all paths."""
